@@ -426,15 +426,33 @@ def run_attr(name, v):
     return ",".join(out)
 
 
+_RC_WARM = [False]
+
+
 def run_rc(v):
+    """text form, attributes() rows, and the rows the pretty printer SHOWS for the code - after an 8-bit and a 32-bit
+    attribute word have been printed in this process (the printer must not carry anything over)"""
+    from tpmstream.common.event import MarshalEvent, Path
+    from tpmstream.common.path import PathNode
+    from tpmstream.io.pretty.unmarshal import pretty_attrs
     from tpmstream.spec.structures.constants import TPM_RC
 
+    if not _RC_WARM[0]:
+        _RC_WARM[0] = True
+        for nm, val in (("TPMA_SESSION", 0xE1), ("TPMA_OBJECT", 0x00030072), ("TPM_RC", 0), ("TPM_RC", 0x1C4)):
+            t = PRIMS.get(nm) or TPM_RC
+            list(pretty_attrs(MarshalEvent(Path(PathNode("")) / PathNode("w"), t, t(val))))
     x = TPM_RC(int(v))
     rows = []
     for a in x.attributes():
         d = a._details or ""
         rows.append("%s:%d:%s" % (a._name, int(a._value), d.split(":")[0]))
-    return "%s|%s" % (str(x), ",".join(rows))
+    ev = MarshalEvent(Path(PathNode("")) / PathNode("responseCode"), TPM_RC, x)
+    shown = []
+    for l in pretty_attrs(ev):
+        r = parse_pretty(l)
+        shown.append("%s=%s" % (r["name"], r["value"].split(" ")[0]) if r else "?")
+    return "%s|%s|%s" % (str(x), ",".join(rows), ",".join(shown))
 
 
 def run_hist(spec):
